@@ -92,6 +92,20 @@ def gen(rng, tier, i):
             elif r < 0.9: pol.append('I')
             elif r < 0.95: pol.append('A')
             else: pol.append('E')
+    if rng.random() < 0.25:
+        # links whose names are legal but unusual (doubled slash, a link below another link), then reads and writes through them:
+        # the path strings stay inside the mudlib - where the kernel ends up is what counts
+        k0 = 900
+        seq = rng.choice(([('link', 'f0', 'd//ln1'), ('write_file', 'd/ln1', None), ('read_file', 'd/ln1', None)],
+                          [('link', 'd', 'd/sub/up'), ('link', 'f0', 'd/sub/up/leak'), ('write_file', 'd/sub/up/leak', None), ('read_file', 'd/leak', None)],
+                          [('link', 'd/f1', 'd/sub//ln2'), ('cp', 'f0', 'd/sub/ln2'), ('read_file', 'd/sub/ln2', None)],
+                          [('link', 'd/sub', 'ln3'), ('write_file', 'ln3/new', None), ('rm', 'ln3/new', None)]))
+        # (first in the plan, with plain approvals: the master's answers are consumed in order)
+        head = []
+        for ef, a1, a2 in seq:
+            head.append('do fe %d %s %s%s' % (k0, ef, a1.encode().hex(), (' ' + a2.encode().hex()) if a2 else '')); k0 += 1
+        cmds[:0] = head
+        pol[:0] = ['1'] * 12
     p.file('policy', '\n'.join(pol) + '\n')
     p.cycle(connect(0, 0))
     for c in cmds:
@@ -169,6 +183,10 @@ def check(plan, res):
                 if ap.startswith('/'): ap = ap[1:]
                 if ap == '': ap = '.'
                 approvals.append(_norm(ap))
+        elif e.kind == 'fs_escape' and cur is not None:
+            w = e.rest.split(' ')
+            v.append(Violation(PROP, 'confinement', '%s opened %r, which the kernel resolved to %r outside the mudlib (a symbolic link leads out)' % (cur[1], dec(w[1]).decode('latin-1')[:80], dec(w[2][5:]).decode('latin-1')[:80]),
+                               PROP + '/confinement/symlink-escape/' + cur[1]))
         elif e.kind == 'fs' and cur is not None:
             w = e.rest.split(' ')
             op = w[0]
